@@ -603,6 +603,27 @@ Fixpoint mon_c15_submit (policy : N) (prev : pstate) (pending : option (N * pack
   | _ :: rest => mon_c15_submit policy prev pending rest
   end.
 
+(* the mandated exception: a QoS 1/2 publish that was completely transmitted in the current session and is
+   not completed is retained across disconnections; it meets the offline policy only when a CONNACK
+   reports that the session is gone ([nosess]: such a CONNACK was accepted in the current call) *)
+Fixpoint mon_c15_inflight (inflight : list N) (nosess : bool) (ws : list wev) : bool :=
+  match ws with
+  | [] => true
+  | WSent _ (Publish pb) (Some id) :: rest =>
+      if pub_qos pb =? 0 then mon_c15_inflight inflight nosess rest
+      else mon_c15_inflight (if mem id inflight then inflight else id :: inflight) nosess rest
+  | WRecv _ (Connack c) :: rest =>
+      mon_c15_inflight inflight (nosess || ((ca_rc c =? 0) && negb (ca_session_present c))) rest
+  | WDone _ id c :: rest =>
+      (match c with
+       | CompErr EOfflineQueuePolicyFailed => if mem id inflight then nosess else true
+       | _ => true
+       end) && mon_c15_inflight (filter (fun x => negb (x =? id)) inflight) nosess rest
+  | WReset _ :: rest => mon_c15_inflight [] false rest
+  | WCall _ _ _ _ :: rest => mon_c15_inflight (if nosess then [] else inflight) false rest
+  | _ :: rest => mon_c15_inflight inflight nosess rest
+  end.
+
 (* ------------------------------------------------------------------ C16: server limits on the wire *)
 (* what the last accepted CONNACK of this connection announced (specification defaults when absent) *)
 Record caps := mkCaps { cp_maxqos : N; cp_retain : bool; cp_wildcard : bool; cp_shared : bool; cp_maxpkt : N }.
@@ -908,6 +929,7 @@ Definition all_monitors (cfg : config) (ws : list wev) : list (N * bool) :=
     (1404, mon_c14_pings cfg 0 None 0 0 ws);
     (1501, mon_c15 (cf_policy cfg) [] ws);
     (1502, mon_c15_submit (cf_policy cfg) Disconnected None ws);
+    (1503, mon_c15_inflight [] false ws);
     (1601, mon_c16_wire v5 caps_default ws);
     (1701, mon_c17_out v5 0 [] [] ws);
     (1702, mon_c17_in (match co_tam (cf_connect cfg) with Some m => m | None => 0 end) [] [] ws);
